@@ -600,6 +600,9 @@ def main(tier):
     if not quick:
         from . import miri_layer
         extra = miri_layer.run(col, PROP, deadline=time.time() + 300, modes=('meta',), count=300, shards=16)
+    if not quick:
+        from . import memcheck_layer
+        memcheck_layer.run(col, PROP, ('meta',), time.time() + 300)
     rc = col.finish(extra_coverage=extra)
     common.cleanup_scratch()
     return rc
